@@ -9,6 +9,7 @@ type harnessSpec struct {
 	ThoroughOnly bool
 	Steps        int64
 	Conc         int
+	Stall        bool     // a path that exhausts its step budget is a candidate stall, replayed natively under a watchdog
 	Labels       []string // vReach labels that must be reached (vacuity witnesses)
 	Bound        string   // the bound in words (quick)
 	BoundT       string   // the bound in words (thorough), if different
@@ -198,10 +199,33 @@ func init() {
 		Harnesses: []harnessSpec{
 			{Pkg: "rtmp", Func: "HarnessC08_ReadCut", Conc: 256, Labels: []string{"read-cut"}, Bound: "sessions of 1-2 messages (payload 1-3 symbolic bytes, optionally a Set Chunk Size 2 so that a message spans chunks) written by the library; every cut offset 0..len; EOF or sentinel error; whole or 1-byte reads"},
 			{Pkg: "rtmp", Func: "HarnessC08_WriteFail", Labels: []string{"write-fail", "write-ok"}, Bound: "message of 1-5 symbolic bytes or 9000 bytes (several transport writes); failing write call index 0-1 accepting 0-2 bytes"},
+			{Pkg: "rtmp", Func: "HarnessC08_WritePacketFail", Labels: []string{"writepacket-fail"}, Bound: "connect, createStream, publish, SetChunkSize, UserControl packets (symbolic fields) on a transport whose first write fails after 0-2 bytes"},
 			{Pkg: "rtmp", Func: "HarnessC08_Handshake", Labels: []string{"handshake-io"}, Bound: "C0C1 stream cut at {0,1,2,700,1536,1537}; each handshake write on a failing writer"},
 			{Pkg: "flv", Func: "HarnessC08_FlvReadCut", Conc: 256, Labels: []string{"flv-cut-body", "flv-cut-header", "flv-cut-none", "flv-cut-taghdr"}, Bound: "reference-written file of 1-2 tags with 0-2 symbolic body bytes; every cut offset; EOF or sentinel; whole or 1-byte reads"},
 			{Pkg: "flv", Func: "HarnessC08_FlvWriteFail", Labels: []string{"flv-write-fail"}, Bound: "header + one tag; failing write call index 0-3 accepting 0-2 bytes"},
-			{Pkg: "errors", Func: "HarnessC08_Errors", Labels: []string{"errors"}, Bound: "nesting depth 1-3 (thorough 1-4) over {WithStack, Wrap, Wrapf, WithMessage} on 4 kinds of root error (io.EOF, foreign error, New, Errorf)"},
+			{Pkg: "errors", Func: "HarnessC08_Errors", Labels: []string{"errors"}, Bound: "nesting depth 1-3 (thorough 1-4) over {WithStack, Wrap, Wrapf, WithMessage} on 4 kinds of root error (io.EOF, foreign error, New, Errorf); messages from a fixed set including %, format verbs, \": \" and the empty string"},
+		},
+	})
+	reg(&propSpec{
+		ID:   "C07",
+		Rule: "Harnesses c07.go in harness/{amf0,rtmp,flv,aac,avc}: the input is an arbitrary byte string (all bytes symbolic, length forked 0..N); the only obligation is that the call returns: every panic site's feasibility is a solver query (bounds checks, nil checks, make sizes, divisions fork on their failure condition), and a path that exhausts its step budget is replayed natively under a 10 s watchdog (a native hang is a stall violation).",
+		Assumptions: append([]string{
+			"claimed subset: RTMP chunk reader and message/packet decoders, AMF0, FLV demuxer and tag decoders, ADTS/AudioSpecificConfig, AVC NAL/record/sample, WebSocket frame reader, JSON+ reader, enum helpers; NOT claimed: JWS/JWE/JWK parsing and OCSP (encoding/json, encoding/asn1, reflection, math/big are outside the engine), inputs longer than the stated bounds, and the linear-time clause (termination within the bound is shown, not a complexity class)",
+			"allocation sizes that depend on symbolic length fields with more than 64 feasible values are explored for 64 values (evidence: size_sampled_sites)",
+		}, commonAssumptions...),
+		Harnesses: []harnessSpec{
+			{Pkg: "amf0", Func: "HarnessC07_Amf0", Stall: true, Labels: []string{"c07-amf0", "c07-amf0-accepted"}, Bound: "every byte string of 0..10 bytes (thorough 0..13) through Discovery+UnmarshalBinary and through each concrete type's decoder"},
+			{Pkg: "amf0", Func: "HarnessC07_Amf0Enums", Labels: []string{"c07-amf0-enums"}, Bound: "marker.String() over all 256 values"},
+			{Pkg: "rtmp", Func: "HarnessC07_Chunks", Stall: true, Labels: []string{"c07-chunks"}, Bound: "ReadMessage until error over every byte string of 0..12 bytes (thorough 0..16), input chunk size default 128 or symbolic 1..4"},
+			{Pkg: "rtmp", Func: "HarnessC07_Decode", Stall: true, Labels: []string{"c07-decode", "c07-decode-accepted"}, Bound: "DecodeMessage with symbolic type and payload of 0..10 bytes (thorough 0..13), with and without outstanding requests"},
+			{Pkg: "rtmp", Func: "HarnessC07_Packets", Stall: true, Labels: []string{"c07-packets", "c07-packets-accepted"}, Bound: "UnmarshalBinary of each of the 12 packet kinds on 0..10 arbitrary bytes"},
+			{Pkg: "flv", Func: "HarnessC07_FlvDemux", Stall: true, Labels: []string{"c07-flv-demux", "c07-flv-tag"}, Bound: "0..16 (thorough 0..24) arbitrary bytes, alone or after a well-formed header; tag sizes > 40 only for 41, 65536, 2^24-1"},
+			{Pkg: "flv", Func: "HarnessC07_FlvTags", Stall: true, Labels: []string{"c07-flv-tags"}, Bound: "audio and video packager Decode (and re-Encode, String()) on every byte string of 0..8 bytes"},
+			{Pkg: "flv", Func: "HarnessC07_FlvEnums", Labels: []string{"c07-flv-enums"}, Bound: "String/ToHz/OpusToHz/From/OpusFrom of every flv enum with the receiver symbolic over uint8"},
+			{Pkg: "aac", Func: "HarnessC07_Aac", Stall: true, Labels: []string{"c07-aac", "c07-aac-frame"}, Bound: "ADTS Decode (repeated on the remainder), ASC UnmarshalBinary, SetASC+Encode on every byte string of 0..12 bytes (thorough 0..16)"},
+			{Pkg: "aac", Func: "HarnessC07_AacEnums", Labels: []string{"c07-aac-enums"}, Bound: "all aac enum helpers, receiver symbolic over uint8"},
+			{Pkg: "avc", Func: "HarnessC07_Avc", Stall: true, Labels: []string{"c07-avc", "c07-avc-record", "c07-avc-sample"}, Bound: "NALU / record / sample (length size 1..4) UnmarshalBinary on every byte string of 0..10 bytes (thorough 0..14)"},
+			{Pkg: "avc", Func: "HarnessC07_AvcEnums", Labels: []string{"c07-avc-enums"}, Bound: "NALUType (uint8), AVCProfile (uint16), AVCLevel (uint8) String() over their whole range"},
 		},
 	})
 }
